@@ -6,7 +6,9 @@ package c11
 
 import (
 	"fmt"
+	"reflect"
 	"sort"
+	"strings"
 	"sync"
 	"testing"
 
@@ -187,6 +189,65 @@ type Case struct {
 	G       int   `json:"g"`
 	Rounds  int   `json:"rounds"`
 	Stagger int   `json:"stagger"`
+	// readers use different options: every reader is one (operation, option variant) pair; VOrder is the order in
+	// which the variants are first used. One is a spelling of the number 1 used as the name of a struct field and
+	// as getter name: how a name is parsed depends on the options of the read (EnableNumKeys, MaxIdx, EscapePath).
+	VOrder []int  `json:"vorder,omitempty"`
+	One    string `json:"one,omitempty"`
+}
+
+// option variants on top of the options the config was built with
+var variantNames = []string{"base", "EnableNumKeys", "MaxIdx(0)", "EscapePath"}
+
+func variant(base []ucfg.Option, v int) []ucfg.Option {
+	o := append([]ucfg.Option(nil), base...)
+	switch v {
+	case 1:
+		o = append(o, ucfg.EnableNumKeys(true))
+	case 2:
+		o = append(o, ucfg.MaxIdx(0))
+	case 3:
+		o = append(o, ucfg.EscapePath())
+	}
+	return o
+}
+
+// namedFields reads the fixed list k: [k0, k1, k2] and the object o through struct fields whose names parse
+// differently under the option variants, and through the getters with the same names and options: a struct field
+// named N reads the setting the getters find under the name N.
+func namedFields(one string) readOp {
+	return readOp{"named-fields", func(c *ucfg.Config, o []ucfg.Option) string {
+		var out []string
+		kc, err := c.Child("k", -1, o...)
+		if err != nil {
+			return "Child(k): " + err.Error()
+		}
+		for _, tc := range []struct {
+			cfg  *ucfg.Config
+			name string
+		}{{kc, one}, {kc, "2"}, {c, "k." + one}, {c, "[k." + one + "]"}, {c, "k.[" + one + "]"}, {c, "[k]"}} {
+			typ := reflect.StructOf([]reflect.StructField{{Name: "V", Type: reflect.TypeOf(""), Tag: reflect.StructTag(fmt.Sprintf(`config:"%s"`, tc.name))}})
+			to := reflect.New(typ)
+			uerr := tc.cfg.Unpack(to.Interface(), o...)
+			field := to.Elem().Field(0).String()
+			if uerr != nil {
+				field = "error"
+			}
+			gv, gerr := tc.cfg.String(tc.name, -1, o...)
+			getter := gv
+			if gerr != nil {
+				getter = "error"
+				if e, ok := gerr.(ucfg.Error); ok && e.Reason() == ucfg.ErrMissing {
+					getter = "" // a missing setting leaves the field at its zero value
+				}
+			}
+			if field != getter {
+				out = append(out, fmt.Sprintf("MISMATCH: the struct field named %q holds %q (%v), the String getter with the same name and options yields %q (%v)", tc.name, field, uerr, getter, gerr))
+			}
+			out = append(out, tc.name+"="+field)
+		}
+		return strings.Join(out, "; ")
+	}}
 }
 
 func genCase(t *rapid.T) Case {
@@ -194,6 +255,9 @@ func genCase(t *rapid.T) Case {
 	for i := 0; i < 7; i++ {
 		c.Leaves = append(c.Leaves, rapid.IntRange(0, len(leaves)-1).Draw(t, "leaf"))
 	}
+	c.VOrder = rapid.Permutation([]int{0, 1, 2, 3}).Draw(t, "vorder")
+	c.One = rapid.SampledFrom([]string{"", "+"}).Draw(t, "sign") + rapid.SampledFrom([]string{"", "0", "0x", "0X", "0b", "0B", "0o", "0O"}).Draw(t, "base") +
+		strings.Repeat("0", rapid.IntRange(0, 12).Draw(t, "zeros")) + "1"
 	return c
 }
 
@@ -224,6 +288,7 @@ func runCase(cs Case, r *runlog.R) error {
 		"l": []interface{}{leaf(5), leaf(6)},
 		"e": map[string]interface{}{},
 		"m": map[string]interface{}{"p": "${o}", "q": map[string]interface{}{"l": []int{1, 2}}},
+		"k": []interface{}{"k0", "k1", "k2"},
 	}
 	c, err := ucfg.NewFrom(tree, opts...)
 	if err != nil {
@@ -238,14 +303,44 @@ func runCase(cs Case, r *runlog.R) error {
 	// deterministic half: every single read leaves every bit of state reachable from the config unchanged
 	before := state(c)
 	envBefore := state(env)
-	alone := make([]string, len(readOps))
-	for i, op := range readOps {
-		alone[i] = op.f(c, opts)
-		if after := state(c); after != before {
-			return fmt.Errorf("read %q modified the config:\n--- before\n%s\n--- after\n%s", op.name, before, after)
+	one := cs.One
+	if one == "" {
+		one = "1"
+	}
+	ops := append(append([]readOp(nil), readOps...), namedFields(one))
+	vorder := cs.VOrder
+	if len(vorder) == 0 {
+		vorder = []int{0}
+	}
+	type reader struct {
+		op    int
+		v     int
+		opts  []ucfg.Option
+		alone string
+	}
+	var readers []reader
+	for _, v := range vorder {
+		vo := variant(opts, v)
+		for i, op := range ops {
+			if v != 0 && i != 0 && i != 1 && i < len(readOps) {
+				continue // the other variants run the two Unpack operations and the named fields
+			}
+			rd := reader{op: i, v: v, opts: vo}
+			rd.alone = op.f(c, vo)
+			if after := state(c); after != before {
+				return fmt.Errorf("read %q (%s) modified the config:\n--- before\n%s\n--- after\n%s", op.name, variantNames[v], before, after)
+			}
+			if strings.Contains(rd.alone, "MISMATCH") {
+				return fmt.Errorf("read %q with options %s (variants used before, in this order: %v): %s", op.name, variantNames[v], vorder, rd.alone)
+			}
+			readers = append(readers, rd)
 		}
-		if again := op.f(c, opts); again != alone[i] {
-			return fmt.Errorf("read %q is not repeatable: first %q then %q", op.name, alone[i], again)
+	}
+	// once more, in the reverse order of variants: no read depends on which reads came before it
+	for k := len(readers) - 1; k >= 0; k-- {
+		rd := readers[k]
+		if again := ops[rd.op].f(c, rd.opts); again != rd.alone {
+			return fmt.Errorf("read %q (%s) is not repeatable: first %q then %q", ops[rd.op].name, variantNames[rd.v], rd.alone, again)
 		}
 	}
 	if after := state(env); after != envBefore {
@@ -269,11 +364,11 @@ func runCase(cs Case, r *runlog.R) error {
 			defer wg.Done()
 			<-start
 			for round := 0; round < cs.Rounds; round++ {
-				for i := range readOps {
-					j := (i + k*cs.Stagger) % len(readOps)
-					if got := readOps[j].f(c, opts); got != alone[j] {
+				for i := range readers {
+					rd := readers[(i+k*cs.Stagger)%len(readers)]
+					if got := ops[rd.op].f(c, rd.opts); got != rd.alone {
 						mu.Lock()
-						diffs = append(diffs, fmt.Sprintf("%s: with other readers running %q, alone %q", readOps[j].name, got, alone[j]))
+						diffs = append(diffs, fmt.Sprintf("%s (%s): with other readers running %q, alone %q", ops[rd.op].name, variantNames[rd.v], got, rd.alone))
 						mu.Unlock()
 					}
 				}
